@@ -1,6 +1,7 @@
 ------------------------------ MODULE MC_VbaDir ------------------------------
 EXTENDS VbaDir, Json
-CONSTANTS MaxRefs, MaxModules, Hosts, CodePages, Shapes, Offsets, Flags, Compat
+CONSTANTS MaxRefs, MaxModules, Hosts, CodePages, Shapes, Offsets, Flags, Compat,
+          RefLibs      \* FALSE: every reference carries the standard libid (C18: names); TRUE: every combination of LibIds (X07)
 VARIABLES d, done
 Init == /\ \E c \in Compat : \E cp \in CodePages : \E h \in Hosts :
              d = [compat |-> c, cp |-> cp, host |-> h, refs |-> <<>>, modules |-> <<>>]
@@ -8,7 +9,8 @@ Init == /\ \E c \in Compat : \E cp \in CodePages : \E h \in Hosts :
 AddRef == /\ ~done /\ Len(d.refs) < MaxRefs /\ d.modules = <<>>
           /\ \E k \in RefKinds : \E nm \in {"RefA", "RefB"} :
                (\A i \in 1..Len(d.refs) : d.refs[i].name # nm)
-               /\ d' = [d EXCEPT !.refs = Append(@, [kind |-> k, name |-> nm])]
+               /\ \E libs \in (IF RefLibs THEN [1..NLibs(k) -> LibIds] ELSE {[i \in 1..NLibs(k) |-> "std"]}) :
+                    d' = [d EXCEPT !.refs = Append(@, [kind |-> k, name |-> nm, libs |-> libs])]
           /\ UNCHANGED done
 AddModule == /\ ~done /\ Len(d.modules) < MaxModules
              /\ \E nm \in {"Module1", "local", "ThisWorkbook"} : \E cl \in Flags : \E ro \in Flags : \E pv \in Flags :
@@ -20,7 +22,9 @@ AddModule == /\ ~done /\ Len(d.modules) < MaxModules
 End == ~done /\ done' = TRUE /\ UNCHANGED d
 Next == AddRef \/ AddModule \/ End
 Spec == Init /\ [][Next]_<<d, done>>
+RefRules == \A i \in 1..Len(d.refs) : PathIsFirst(d.refs[i]) /\ DescIsLast(d.refs[i])
 Dump == done => PrintT(<<"REPLAY", ToJson([d |-> d, modules |-> IdealModules(d), refs |-> IdealRefs(d),
+                                           refdetail |-> [i \in 1..Len(d.refs) |-> RefDetail(d.refs[i])],
                                            chunks |-> [i \in 1..Len(d.modules) |-> Shape(d.modules[i].shape)],
                                            lens |-> [i \in 1..Len(d.modules) |-> IdealLen(d, i)]])>>)
 =============================================================================
